@@ -899,7 +899,7 @@ static int ec_rk(char *loc, char *cmd, char *arg, char *txt)
 		return 1;
 	if (!(path = ex_pathexpand(arg, 1)))
 		return 1;
-	rep = cmd_unix(path, reg_get(reg, NULL));
+	rep = cmd_unix(path, reg_get(reg, NULL) ? reg_get(reg, NULL) : "");
 	reg_put(reg, rep ? rep : "", 1);
 	free(rep);
 	return !rep;
